@@ -83,7 +83,9 @@ def table(repo, build_dir, variant="asan"):
 
     def add(c, stream):
         cl, prov, text = classify(c)
-        inpr = bool(PRINT_ROUTINE.search(c["func"] or ""))
+        # excused as "explicitly requested print": a print-named routine — but one that was handed a FILE* must write there,
+        # stdout / stderr inside it is a stream its caller did not designate
+        inpr = bool(PRINT_ROUTINE.search(c["func"] or "")) and not (takes_file(c["func"]) and not stream.startswith("via:"))
         key = (c["file"], c["func"], c["line"], c["callee"])
         rows[key] = {"file": os.path.basename(c["file"]), "fn": c["func"] or "?", "line": c["line"], "callee": c["callee"] or "(indirect)",
                      "stream": stream, "cls": cl, "inpr": inpr, "prov": prov, "args": text}
